@@ -230,7 +230,7 @@ def check_c11(tier, seed, only=None):
             rec.case('inv-%d-%d' % (seed, i), True, ['invalid:' + '+'.join(kinds)], dict(kind='invalid', violations=kinds, file_head=open(path).read()[:200]))
         else:
             opt, dim = dimacs_gen.mcb_optimum(n, edges)
-            dimacs_gen.write_dimacs(path, n, [(u, w_, str(x)) for u, w_, x in edges], rng, trailing_newline=rng.random() < 0.8)
+            dimacs_gen.write_dimacs(path, n, [(u, w_, str(x)) for u, w_, x in edges], rng, trailing_newline=rng.random() < 0.8, omit_unit=rng.random() < 0.6)
             check_valid_file(rec, demos, rng, i, path, n, edges, opt, dim, tier, timeout, ranks)
             rec.case('val-%d-%d' % (seed, i), dim >= 1, ['valid'] + (['forest'] if dim == 0 else []), dict(kind='valid', n=n, m=len(edges), optimum=opt, cycle_space_dim=dim))
         os.unlink(path)
@@ -240,7 +240,7 @@ def check_c11(tier, seed, only=None):
     finally:
         shutil.rmtree(tmp, ignore_errors=True)
     v.absorb(rec.agg)
-    cov = lib.base_coverage(rec.agg, 'generated DIMACS files (2/3 valid: random, grids, cycles with chords, complete, bipartite, trees, disconnected; 1/3 invalid: self-loop / parallel edge / weight <= 0 and combinations at random positions) '
+    cov = lib.base_coverage(rec.agg, 'generated DIMACS files (2/3 valid: random, grids, cycles with chords, complete, bipartite, trees, disconnected, weights of 1 written or omitted at random so that weighted and weight-less lines mix; 1/3 invalid: self-loop / parallel edge / weight <= 0 and combinations at random positions) '
                             'fed to mcb-dimacs, approx-mcb-dimacs, collection-stats-dimacs and mcb-dimacs-mpi (mpiexec -n P, P sampled from {1,2,3,4,8}) under random option combinations '
                             '(algorithm x --parallel x --cores x --verbose x --printcycles, k in 0..4); oracle: exit status, stderr diagnostic, absence/presence and value of the "MCB weight" line against an '
                             'independent Python Horton+Gauss optimum, termination within a watchdog (one re-run); non-trivial = invalid file, or valid file with a cycle; distinct by file',
